@@ -92,7 +92,11 @@ impl Polytope {
     /// Tests if the polytope is feasible
     #[inline]
     pub fn status(&self) -> PolytopeStatus {
-        self.solve_linprog(Array1::zeros(self.mat.raw_dim()[1]), false)
+        // Normalize the rows first. This leaves the polytope unchanged, but row norms that differ by
+        // several orders of magnitude make the LP solver report feasible polytopes as infeasible.
+        self.clone()
+            .normalize()
+            .solve_linprog(Array1::zeros(self.mat.raw_dim()[1]), false)
     }
 
     /// Solves a linear program built form this polytope and coeffs as target func.
